@@ -9,8 +9,8 @@ LEVEL = 'exploration'
 
 
 def _observe(job):
-    fam, pos, theta, npts = job
-    m = O.make(fam, theta)
+    fam, pos, theta, npts = job[:4]
+    m = O.make(fam, theta, as_int=(len(job) > 4 and bool(job[4])))
     g = O.edge_grid(npts)
     n = len(g)
     U = np.full((n, n), np.nan)
@@ -43,6 +43,29 @@ def _observe(job):
                         batch.append({'a': int(ufx[i, j]), 'b': int(out[t])})
                 except Exception:
                     batch.append({'a': 0, 'b': 1})
+            # the arguments as pandas Series whose integer labels are not 0..n-1 in order (columns of a sorted / filtered frame)
+            import pandas as pd
+            lab = rs.permutation(len(sel)) + 3
+            try:
+                out = O.fx(np.asarray(m.percent_point(pd.Series([g[i] for i, j in sel], index=lab), pd.Series([g[j] for i, j in sel], index=lab)), dtype=float))
+                for t, (i, j) in enumerate(sel):
+                    batch.append({'a': int(ufx[i, j]), 'b': int(out[t])})
+            except Exception:
+                batch.append({'a': 0, 'b': 1})
+            # an object that answered exactly these questions under another parameter before it was given this one
+            if fam != 'Independence':
+                other = {'Clayton': 3.1, 'Gumbel': 1.9, 'Frank': -6.5 if theta > 0 else 7.5}[fam]
+                m2 = O.make(fam, other)
+                y = np.array([g[i] for i, j in sel])
+                v = np.array([g[j] for i, j in sel])
+                try:
+                    m2.percent_point(y.copy(), v.copy())
+                    m2.theta, m2.tau = m.theta, m.tau
+                    out = O.fx(np.asarray(m2.percent_point(y.copy(), v.copy()), dtype=float))
+                    for t, (i, j) in enumerate(sel):
+                        batch.append({'a': int(ufx[i, j]), 'b': int(out[t])})
+                except Exception:
+                    batch.append({'a': 0, 'b': 1})
             # rows that are close to each other without being equal (a few 1e-7 apart) are different rows
             near = [(g[i], g[j]) for i, j in sel[:8]]
             near = near + [(min(y + 3e-7, 1 - 1e-9), min(v + 2e-7, 1 - 1e-9)) for y, v in near] + [(max(y - 4e-7, 1e-9), v) for y, v in near]
@@ -69,6 +92,7 @@ def run(ctx):
                 'TLC (InverseLaws) evaluates the laws.  non-trivial = every table; distinct by (family, theta)') % (nchain, npts + 1, npts + 1)
     ctx.assumptions = ['the inverse is judged through the implementation\'s own partial_derivative (C07 ties that to the CDF)']
     jobs = [(fam, pos, th, npts) for fam in O.FAMS4 for pos, th in enumerate(O.chain(fam, nchain), 1)]
+    jobs += [(fam, 80 + i, float(t), npts, 1) for fam, ts in (('Clayton', (2, 5)), ('Gumbel', (2, 5)), ('Frank', (-3, 4))) for i, t in enumerate(ts)]      # integer-typed parameters
     with Pool(16) as pool:
         obs = pool.map(O.Safe(_observe), jobs, chunksize=1)
     obs, jobs = O.split_raised(ctx, 'C08', obs, jobs, 'harness.props.C08._observe')
